@@ -72,6 +72,11 @@ def main(argv=None):
     if args.replay:
         return _replay(pid, args.replay)
     t0 = time.time()
+    from symx import selftest
+    errs = selftest.run(seed)
+    if errs:
+        print("ENGINE-MISMATCH model self-test failed: %s" % errs[:5])
+        return 3
     hmod = importlib.import_module("harness." + hname)
     meta = hmod.META
     jobs = []
